@@ -99,12 +99,12 @@ PROPS = {
                       {"config": "gcc-O1-asan-ubsan", "runs": 3000, "kv": {"faults": "B"}},
                       {"config": "clang-O0", "runs": 2000, "kv": {"faults": "B"}},
                       {"config": "clang-O0", "runs": 2000, "kv": {"faults": "C"}}],
-            "thorough": [{"config": "gcc-O0", "runs": 3000, "kv": {"faults": "A"}},
-                         {"config": "gcc-O2", "runs": 4000, "kv": {"faults": "B"}},
-                         {"config": "clang-O0", "runs": 4000, "kv": {"faults": "B"}},
-                         {"config": "clang-O2", "runs": 3000, "kv": {"faults": "C"}},
-                         {"config": "gcc-O1-asan-ubsan", "runs": 3000, "kv": {"faults": "C"}},
-                         {"config": "clang-O1-asan-ubsan", "runs": 2000, "kv": {"faults": "B"}}],
+            "thorough": [{"config": "gcc-O0", "runs": 20000, "kv": {"faults": "A"}},
+                         {"config": "gcc-O2", "runs": 30000, "kv": {"faults": "B"}},
+                         {"config": "clang-O0", "runs": 30000, "kv": {"faults": "B"}},
+                         {"config": "clang-O2", "runs": 25000, "kv": {"faults": "C"}},
+                         {"config": "gcc-O1-asan-ubsan", "runs": 25000, "kv": {"faults": "C"}},
+                         {"config": "clang-O1-asan-ubsan", "runs": 20000, "kv": {"faults": "B"}}],
         },
         "rule": "One run = one seeded plan of 4-45 operations on a store of up to 6 paths under /simfs/ (Export_List, Export_Table, both "
                 "Export_Function overloads with linear and logarithmic grids, Import_List, Import_Table, File_Exists, all In_Units "
